@@ -12,7 +12,8 @@ PATTERNS = {"twitter": ["twitter.com", "x.com"], "instagram": ["instagram.com"],
 HTML_EXTS = [".htm", ".html", ".dhtml", ".shtml", ".xhtml", ".asp", ".asp1", ".asp2", ".aspx", ".jsp", ".jspx", ".pl", ".php", ".php5", ".cgi", ".bin"]
 PATHS = ["", "/", "/abc", "/abc/", "/abc/def", "/index.html", "/home", "/x.facebook.com/", "/@t.me", "/twitter.com", "/a.pdf", "/youtu.be/x", "/ab", "/abc.d/e.jpg"]
 DECOYS = [("", "", ""), ("facebook.com@", "", ""), ("t.me:x@", "", ""), ("", "?u=twitter.com/a", ""), ("", "?x=1&y=http://bit.ly/abc", ""),
-          ("", "", "#youtube.com"), ("", "", "#@t.me/s/x"), ("u:p@", "?instagram.com", "#fb.me")]
+          ("", "", "#youtube.com"), ("", "", "#@t.me/s/x"), ("u:p@", "?instagram.com", "#fb.me"),
+          ("@t.me@", "", ""), ("@", "", ""), ("joe@instagram.com@", "", "")]        # a raw '@' inside the userinfo, an empty userinfo
 
 
 def labels(domain):
@@ -87,6 +88,18 @@ def run(ctx):
     data, _ = ctx.generate("Gen_C18", cfg_text="INIT GenInit\nNEXT GenNext\nCONSTANTS NShort = %d\n" % ctx.pick(150, 0), env=env, heap="8g")
     cases = []
     hosts = sorted(tuple(h) for h in data["hosts"])
+    # look-alikes that only differ by a letter whose non-ASCII case folding meets an ASCII one (dotless i, long s, kelvin):
+    # distinct registrable domains, hence members of no list
+    twins = {"i": "\u0131"}          # (long s and the kelvin sign are mapped to s and k by IDNA: not distinct domains)
+    for dom in ["twitter.com", "instagram.com", "facebook.com", "t.me", "telegram.org", "youtube.com", "bit.ly", "x.com"]:
+        first, rest_ = dom.split(".", 1)
+        for a, b in twins.items():
+            if a in first:
+                fake = first.replace(a, b, 1)
+                lab = armour(fake)
+                spelling[lab] = fake
+                hosts.append((lab,) + tuple(armour(l) for l in rest_.split(".")))
+                hosts.append((armour("www"), lab) + tuple(armour(l) for l in rest_.split(".")))
     for hi, h in enumerate(hosts):
         text = ".".join(spelling.get(l, l) for l in h)
         if hi % 5 == 1:
